@@ -7,6 +7,13 @@
 """
 
 
+import math
+
+
+def _logu(rng, lo, hi):
+    return math.exp(rng.uniform(math.log(lo), math.log(hi)))
+
+
 def benign_pick(kernel, acts):
     """feeders flush first, faults fire as soon as armed, workers run in index order, then the parent;
     a time-out fires only when nothing else can move."""
@@ -47,6 +54,8 @@ class WeightedSticky:
         self.w_fault = params["w_fault"]
         self.sticky = params["sticky"]
         self.last = None
+        self.phase_len = params.get("phase_len") or 0
+        self.stalls = [dict(st, until=None) for st in params.get("stalls", [])]
 
     def weight(self, a):
         if a.kind == "task":
@@ -59,7 +68,54 @@ class WeightedSticky:
             return self.w_timeout
         return self.w_fault
 
+    def rephase(self):
+        """time-varying speeds: every `phase_len` steps all weights are drawn afresh"""
+        rng = self.rng
+        self.w_parent = _logu(rng, 0.05, 10.0)
+        self.w_worker = [_logu(rng, 0.02, 10.0) for _ in self.w_worker]
+        self.w_feeder = _logu(rng, 0.02, 10.0)
+
     def pick(self, kernel, acts):
+        rng = self.rng
+        if self.phase_len and kernel.steps and kernel.steps % self.phase_len == 0:
+            self.rephase()
+        if self.stalls:
+            # a process that is going to be stalled hurries to its stall point first ("fast, then frozen")
+            for st in self.stalls:
+                if st["until"] is None and rng.random() < 0.5:
+                    for i, a in enumerate(acts):
+                        if a.kind == "task" and a.label == st["label"] and a.target.nops < st["at"]:
+                            self.last = a.label
+                            return i
+            acts_f = self.filter_stalled(kernel, acts)
+            if len(acts_f) != len(acts):
+                j = self._pick(kernel, [a for _, a in acts_f])
+                return acts_f[j][0]
+        return self._pick(kernel, acts)
+
+    def filter_stalled(self, kernel, acts):
+        """(index, action) pairs that are not stalled; stalled = the action belongs to a process that is
+        currently descheduled (a stall starts when the victim reaches its op number `at`)"""
+        now = kernel.steps
+        for st in self.stalls:
+            if st["until"] is None:
+                for a in acts:
+                    if a.kind == "task" and a.label == st["label"] and a.target.nops >= st["at"]:
+                        st["until"] = now + st["steps"]
+                        break
+        blocked = set()
+        for st in self.stalls:
+            if st["until"] is not None and now < st["until"]:
+                blocked.add(st["label"])
+                blocked.add("T" + st["label"])
+                if st["with_feeder"] and st["label"] != "P":
+                    blocked.add("F" + st["label"][1:])
+        if not blocked:
+            return list(enumerate(acts))
+        keep = [(i, a) for i, a in enumerate(acts) if a.label not in blocked]
+        return keep if keep else list(enumerate(acts))
+
+    def _pick(self, kernel, acts):
         rng = self.rng
         if len(acts) == 1:
             self.last = acts[0].label
